@@ -7,6 +7,7 @@ Section Final.
 Variable tab : list (N * N).
 Variable lit : Z -> str.
 Variable empty_expr : str.
+Variable proc : N -> Z -> Z.
 Variable ps : style.
 Variable inp : input.
 Hypothesis W : wf tab inp.
@@ -48,6 +49,53 @@ Proof.
   destruct t as [s|n|n]; try reflexivity. exfalso. apply (H n). left. reflexivity.
 Qed.
 
+(* ---- bind processors ---- *)
+(* flattened_processors *)
+Definition fprocs (st : pcstate) : dict N := dupdate (s_procs st) (i_procs inp).
+Notation pz := (pz proc inp).
+
+Lemma dget_In_pair : forall {V} k (v : V) (d : dict V), dget k d = Some v -> In (k, v) d.
+Proof.
+  induction d as [|[k' v'] d IH]; cbn [dget]; [discriminate|].
+  destruct (str_eqb_spec k k') as [->|Hn]; intro H.
+  - inversion H; subst. left. reflexivity.
+  - right. apply IH. exact H.
+Qed.
+
+Lemma fprocs_plain : forall done st n, Inv done st -> In n order -> dget n (fprocs st) = dget n (i_procs inp).
+Proof.
+  intros done st n I Hn. unfold fprocs. apply dget_dupdate_other. intro Hk.
+  destruct (v_procs_keys _ _ _ _ _ _ _ I n Hk) as [n1 [B1 B2]].
+  exact (w_xfresh _ _ W n1 n (v_done _ _ _ _ _ _ _ I n1 B1) B2 Hn).
+Qed.
+
+Lemma fprocs_x : forall done st n k v, Inv done st -> In n done -> In (k, v) (xitems tab inp n) ->
+  dget k (fprocs st) = dget n (i_procs inp).
+Proof.
+  intros done st n k v I Hn Hx. unfold fprocs.
+  pose proof (v_procs_x _ _ _ _ _ _ _ I n k v Hn Hx) as G.
+  destruct (dget k (s_procs st)) as [p|] eqn:E.
+  - rewrite <- G. apply dget_dupdate_in; [exact (v_procs_nodup _ _ _ _ _ _ _ I)|apply dget_In_pair; exact E].
+  - rewrite dget_dupdate_other by (apply dget_None_keys; exact E). rewrite <- G.
+    apply dget_None_keys. intro Hk. apply (w_prockeys _ _ W) in Hk.
+    exact (w_xfresh _ _ W n k (v_done _ _ _ _ _ _ _ I n Hn) (xitem_name _ _ _ _ _ Hx) Hk).
+Qed.
+
+Lemma papply_pz : forall fp k n z, dget k fp = dget n (i_procs inp) -> papply proc fp k (PS z) = PS (pz n z).
+Proof. intros fp k n z H. unfold papply, Params.pz. rewrite H. destruct (dget n (i_procs inp)); reflexivity. Qed.
+
+(* the values after their processors were applied (what both branches of _init_compiled compute) *)
+Definition processed (st : pcstate) : dict pval :=
+  map (fun kv => (fst kv, papply proc (fprocs st) (fst kv) (snd kv))) (s_params st).
+
+Lemma keys_processed : forall st, keys (processed st) = keys (s_params st).
+Proof. intro st. unfold processed, keys. rewrite map_map. reflexivity. Qed.
+Lemma dget_processed : forall st k, dget k (processed st) = option_map (papply proc (fprocs st) k) (dget k (s_params st)).
+Proof.
+  intros st k. unfold processed. induction (s_params st) as [|[k' v'] d IH]; [reflexivity|].
+  cbn [map fst snd dget]. destruct (str_eqb_spec k k') as [->|Hn]; [reflexivity|exact IH].
+Qed.
+
 (* ---- the dictionary handed to a named / pyformat driver ---- *)
 Definition fdict (d : dict pval) : dict pval :=
   match ebn with [] => d | _ => drekey (dget_or_key ebn) d end.
@@ -69,40 +117,44 @@ Proof.
 Qed.
 
 Lemma fdict_get : forall done st k, Inv done st -> In k (keys (s_params st)) ->
-  dget (dget_or_key ebn k) (fdict (s_params st)) = dget k (s_params st).
+  dget (dget_or_key ebn k) (fdict (processed st)) = dget k (processed st).
 Proof.
   intros done st k I Hk. unfold fdict. destruct ebn as [|e0 er] eqn:E.
   - reflexivity.
   - rewrite <- E. rewrite drekey_inj.
-    + apply dget_rekey_map. intros a Ha He. apply (rename_inj done st I); assumption.
-    + apply (rename_inj done st I).
-    + exact (v_nodup _ _ _ _ _ _ _ I).
+    + apply dget_rekey_map. rewrite keys_processed. intros a Ha He. apply (rename_inj done st I); assumption.
+    + rewrite keys_processed. apply (rename_inj done st I).
+    + rewrite keys_processed. exact (v_nodup _ _ _ _ _ _ _ I).
 Qed.
 
-(* a plain bind: its (escaped) name finds the value given for it *)
-Lemma fdict_plain : forall done st n, Inv done st -> In n order -> kind_of inp n = Plain ->
-  dget (esc tab n) (fdict (s_params st)) = dget n (i_params inp).
+(* a plain bind: its (escaped) name finds the value given for it, processed once *)
+Lemma fdict_plain : forall done st n v, Inv done st -> In n order -> kind_of inp n = Plain ->
+  dget n (i_params inp) = Some (PS v) ->
+  dget (esc tab n) (fdict (processed st)) = Some (PS (pz n v)).
 Proof.
-  intros done st n I Hn K. rewrite <- (ebn_get_or_key_in tab _ _ Hn).
-  assert (Hg : dget n (s_params st) = dget n (i_params inp)) by (apply (v_keep _ _ _ _ _ _ _ I); [exact Hn|right; exact K]).
-  rewrite (fdict_get done st n I); [exact Hg|].
-  apply dget_In_keys. rewrite Hg. destruct (w_plain _ _ W n Hn K) as [v Hv]. congruence.
+  intros done st n v I Hn K Hv. rewrite <- (ebn_get_or_key_in tab _ _ Hn).
+  assert (Hg : dget n (s_params st) = Some (PS v)).
+  { rewrite (v_keep _ _ _ _ _ _ _ I n Hn (or_intror K)). exact Hv. }
+  rewrite (fdict_get done st n I) by (apply dget_In_keys; congruence).
+  rewrite dget_processed, Hg. cbn [option_map]. f_equal. apply papply_pz. exact (fprocs_plain done st n I Hn).
 Qed.
 
-(* an expanded name finds its element *)
+(* an expanded name finds its element, processed once by the processor of the expanding bind *)
 Lemma fdict_x : forall done st n k v, Inv done st -> In n done -> In (k, v) (xitems tab inp n) ->
-  dget k (fdict (s_params st)) = Some (PS v).
+  dget k (fdict (processed st)) = Some (PS (pz n v)).
 Proof.
   intros done st n k v I Hn Hx.
   assert (Hg : dget k (s_params st) = Some (PS v)) by exact (v_x _ _ _ _ _ _ _ I n k v Hn Hx).
   assert (Ho : In n order) by exact (v_done _ _ _ _ _ _ _ I n Hn).
   rewrite <- (ebn_get_or_key_out tab order k) at 1.
-  - rewrite (fdict_get done st k I); [exact Hg|]. apply dget_In_keys. congruence.
+  - rewrite (fdict_get done st k I) by (apply dget_In_keys; congruence).
+    rewrite dget_processed, Hg. cbn [option_map]. f_equal. apply papply_pz. exact (fprocs_x done st n k v I Hn Hx).
   - exact (w_xfresh _ _ W n k Ho (xitem_name _ _ _ _ _ Hx)).
 Qed.
 
 (* ---- the reference meaning of a source token ---- *)
-Lemma spec_bind : forall n v, dget n (i_params inp) = Some (PS v) -> spec_tok lit empty_expr inp (Bind n) = Some [Val v].
+Lemma spec_bind : forall n v, dget n (i_params inp) = Some (PS v) ->
+  spec_tok lit empty_expr proc inp (Bind n) = Some [Val (pz n v)].
 Proof. intros n v H. cbn [spec_tok]. rewrite H. reflexivity. Qed.
 
 Lemma kind_pv : forall n v, dget n (i_params inp) = Some v -> pv inp n = v.
